@@ -144,6 +144,38 @@ let run_case (line : string) =
               cur := res.Outcome.r_st);
            out " ; "
          end) ms
+   | "proto" ->
+     (* proto <oracles> <ro> <msg> : what the protocol demands of the story IDs (story-level
+        classes) or of the item IDs of the addressed story (item-level classes); noclaim when
+        a hypothesis of the order theorems fails (uniqueness is checked by the harness) *)
+     let o = rd_oracles r in
+     let ro = rd_xml r in
+     let m = rd_xml r in
+     let pr_ids ids = out (string_of_int (L.length ids)); L.iter (fun i -> outc (); pr_ostr i) ids in
+     (match Classify.classify m, Proto.rc_of ro with
+      | Coq_inr k, Some rc when not (Classify.ro_completed ro) && Proto.schema_ok k m ->
+        (match Messages.base_of k m with
+         | None -> out "noclaim"
+         | Some b ->
+           let kids = Xml.kids_of rc in
+           if Proto.is_story_class k then begin
+             if Seq.no_bad Merge.skey kids && Elements.ro_stories_err o rc = None then
+               (match Proto.proto_story k b (Proto.story_ids_rc rc) with
+                | Some ids -> out "story "; pr_ids ids
+                | None -> out "noclaim")
+             else out "noclaim"
+           end else if Proto.is_item_class k then begin
+             (match Merge.find_story (Proto.addressed_story k b) kids with
+              | Seq.FFound i ->
+                (match List.nth_error kids i with
+                 | Some s when Seq.no_bad Merge.ikey (Xml.kids_of s) ->
+                   (match Proto.proto_item k b (Proto.item_ids s) with
+                    | Some ids -> out "item "; out (string_of_int (int_of_nat i)); outc (); pr_ids ids
+                    | None -> out "noclaim")
+                 | _ -> out "noclaim")
+              | _ -> out "noclaim")
+           end else out "noclaim")
+      | _ -> out "noclaim")
    | "coll" ->
      let o = rd_oracles r in
      let inc = rd_bool r in
